@@ -562,7 +562,9 @@ struct Executor {
         bool corrupt = !f.oti.empty();
         Domain d = in_domain(sc.s->codec, sc.s->m, f.k, f.r, f.E, f.N1, f.pseed);
         status(&sc, "setp", corrupt || !d.inside);
+        cb_target = &sc;            // an even-N1 LDPC decoder may already decode (and call back) while it is being configured
         int st = ad_set_params(sc.h, sc.s->codec, &p, 0, sc.s->id);
+        cb_target = nullptr;
         status_done(); res.lib_calls++;
         sc.setp_done = true;
         Hash64 x; x.u64(f.k); x.u64(f.r); x.u64(f.E);
@@ -705,8 +707,12 @@ struct Executor {
     }
 
     void do_setcb(SesCtx &sc) {
-        if (!sc.configured || sc.released || sc.cb_set || sc.s->role != R_DEC || sc.s->cb == "none") return;
-        if (sc.distinct > 0 || sc.avail_done || sc.finish_called) return;        // must precede any symbol (DESIGN H1)
+        // after of_set_fec_parameters (the order of eperftool and the examples) or before it (nothing in the header forbids
+        // it); in both cases before any symbol (DESIGN H1)
+        bool before_setp = sc.created && !sc.setp_done;
+        if (!(sc.configured || before_setp) || sc.released || sc.cb_set || sc.s->role != R_DEC || sc.s->cb == "none") return;
+        if (sc.distinct > 0 || sc.avail_done || sc.finish_called) return;
+        if (before_setp) count("callback_registered_before_parameters");
         status(&sc, "setcb", false);
         int st = ad_set_cb(sc.h, &Executor::src_cb_tramp, nullptr, this, sc.s->id);
         status_done(); res.lib_calls++;
